@@ -47,6 +47,7 @@ static int fail_errno(const char *l) {
     static const struct { const char *name; int value; } names[] = {
         {"EINTR", EINTR}, {"EAGAIN", EAGAIN}, {"EIO", EIO}, {"ENOSYS", ENOSYS}, {"EFAULT", EFAULT},
         {"EINVAL", EINVAL}, {"EPERM", EPERM}, {"ENOMEM", ENOMEM}, {"EBADF", EBADF}, {"ENOENT", ENOENT},
+        {"NONE", -1},   /* failure reported by the return value alone: errno left at 0 */
     };
     if (strncmp(l, "fail", 4) != 0) return 0;
     if (l[4] == 0) return EIO;
@@ -83,7 +84,7 @@ int getentropy(void *buffer, size_t len) {
     unsigned char *out = buffer;
     if (k < nlines) {
         const char *l = lines[k];
-        { int e = fail_errno(l); if (e) { errno = e; return -1; } }
+        { int e = fail_errno(l); if (e) { errno = e < 0 ? 0 : e; return -1; } }
         size_t hl = strlen(l) / 2;
         if (hl == 0) { memset(out, 0, len); return 0; }
         for (size_t i = 0; i < len; i++) {
@@ -93,7 +94,7 @@ int getentropy(void *buffer, size_t len) {
         return 0;
     }
     const char *def = getenv("HDW_SHIM_DEFAULT");
-    if (def) { int e = fail_errno(def); if (e) { errno = e; return -1; } }
+    if (def) { int e = fail_errno(def); if (e) { errno = e < 0 ? 0 : e; return -1; } }
     if (def && strcmp(def, "real") == 0) {
         int (*real)(void *, size_t) = dlsym(RTLD_NEXT, "getentropy");
         if (real) return real(buffer, len);
